@@ -539,10 +539,18 @@ func (e *c16Env) oracle(op c16Op, ok bool, pre, post *c16Snap) {
 		}
 		if inPre && inPost && a.val != b.val && op.kind != "rotate" {
 			bad := len(b.verifiers) != 0
+			foreign := false // a request of ANOTHER address over this record: judged when it appeared (dead-record oracle below)
 			for _, q := range post.reqs {
 				for _, x := range q.ids {
-					bad = bad || x == id
+					if x == id && q.addr != b.addr {
+						foreign = true
+					} else {
+						bad = bad || x == id
+					}
 				}
+			}
+			if !bad && foreign {
+				r.Known(kfC16Rotation, fmt.Sprintf("record %d changed value %q -> %q and a request made by a former owner through its stale index still covers it", id, a.val, b.val)+" | "+op.line)
 			}
 			if bad {
 				what := fmt.Sprintf("record %d changed value %q -> %q but keeps verifiers %v or a pending request", id, a.val, b.val, b.verifiers)
